@@ -30,8 +30,10 @@ namespace occa {
 
     template <class ReturnType>
     void setupReturnMemoryArray(const int size) const {
-      size_t bytes = sizeof(ReturnType) * size;
-      if (bytes > returnMemory.size()) {
+      // The host reduction reads every entry of returnMemory:
+      // it has to hold exactly [size] entries of ReturnType
+      const size_t bytes = sizeof(ReturnType) * size;
+      if (bytes != returnMemory.byte_size()) {
         returnMemory = device_.template malloc<ReturnType>(size);
       }
       returnMemory.setDtype(dtype::get<ReturnType>());
